@@ -44,7 +44,9 @@ def net_case(torch, seed, mode):
     from plinio.methods.pit.nn.features_masker import PITFrozenFeaturesMasker
     rng = random.Random(seed)
     spec = ga.gen(rng, dim=rng.choice([1, 1, 2]), conv_head=True, k1d=list(range(1, 13)))
-    o = {'seed': seed, 'mode': mode, 'arch': ga.describe(spec), 'spec': spec, 'skip': None, 'layers': {}, 'fails': []}
+    if rng.random() < 0.3:
+        spec = ga.add_output_head(spec, rng)
+    o = {'seed': seed, 'mode': mode, 'arch': ga.describe(spec) + ' out=%s' % spec['out'], 'spec': spec, 'skip': None, 'layers': {}, 'fails': []}
     if ga.has_dw_after_cat(spec) or ga.has_add_of_cat(spec):
         # two topologies whose feature bookkeeping is decided by C09 (a depthwise conv fed by a concat gets no
         # masker; an add with a concat operand puts a masker on a tensor whose width is fixed elsewhere)
@@ -81,10 +83,11 @@ def net_case(torch, seed, mode):
         e = p.export()
         e.eval()
         ye = e(*xs)
-        o['out_shape'] = [list(y0.shape), list(yp.shape), list(ye.shape)]
-        if list(ye.shape) != list(y0.shape) or list(yp.shape) != list(y0.shape):
+        tup = lambda y: list(y) if isinstance(y, (tuple, list)) else [y]
+        o['out_shape'] = [[list(t.shape) for t in tup(y)] for y in (y0, yp, ye)]
+        if o['out_shape'][2] != o['out_shape'][0] or o['out_shape'][1] != o['out_shape'][0]:
             o['fails'].append(('output-shape-changed', str(o['out_shape'])))
-        if not bool(torch.isfinite(ye).all()):
+        if not all(bool(torch.isfinite(t).all()) for t in tup(ye)):
             o['fails'].append(('exported-output-not-finite', ''))
         for nm, layer in e.named_modules():
             if nm in summ and isinstance(layer, (nn.Conv1d, nn.Conv2d, nn.Linear)):
